@@ -31,7 +31,7 @@ ASSUMPTIONS = [
     "toml/serde parsing is exercised by the correspondence only (the model starts from the abstract declaration that was printed)",
     "std HashMap iteration order of Config.clusters is arbitrary: the model takes the order as a list and the theorems hold for every permutation; observations are compared sorted",
     "certificate fingerprints (sha256 of the DER) and SAN extraction are oracles: certificates are pool indices, distinct indices have distinct fingerprints (checked by the driver)",
-    "route keys of declared HTTP(S) frontends are pairwise distinct, TCP/UDP frontends are distinct within a cluster, (backend_id,address) are distinct within a cluster and health-check blocks are valid: the loader does not check these (see LEVEL_NOTE); the theorems carry them as the decidable hypothesis distinct_keys",
+    "hostnames, paths and methods contain no ';' (the state keys an HTTP route by a ';'-joined string, the model by the tuple)",
     "answers / custom answer files, cipher lists, tls_versions, header edits and metrics sections are not modelled (not generated)",
 ]
 TRUSTED = ["translator props/c20.py:translate extracts the counter type of generate_config_messages, the defaults and H2_MIN_BUFFER_SIZE from command/src/config.rs into coq/C20/Gen.v"]
@@ -754,6 +754,33 @@ def violate(rng, which):
             c = r.choice(d.clusters)
             c.hc = r.choice([dict(uri="nope"), dict(uri=""), dict(uri="/ok", interval=0), dict(uri="/ok", timeout=0),
                              dict(uri="/ok", healthy=0), dict(uri="/ok", unhealthy=0), dict(uri="status")])
+        elif which == "duplicate-route":
+            cs = [c for c in d.clusters if c.proto == 0 and c.fronts]
+            if not cs: continue
+            c = r.choice(cs); f = r.choice(c.fronts)
+            f2 = Front(f.toml_addr, f.addr)
+            f2.hostname, f2.path, f2.kind, f2.method, f2.cert, f2.key = f.hostname, f.path, f.kind, f.method, f.cert, f.key
+            if f2.path is not None and f2.kind is None and r.random() < 0.5: f2.kind = 0      # PREFIX spelled out
+            f2.position = r.choice([None, 1]); f2.tags = r.choice([None, {"env": "prod"}])
+            others = [x for x in d.clusters if x.proto == 0]
+            tgt = r.choice(others) if r.random() < 0.6 else c         # another cluster, or the same one
+            tgt.fronts.insert(r.randrange(len(tgt.fronts) + 1), f2)
+        elif which == "duplicate-tcp-frontend":
+            cs = [c for c in d.clusters if c.proto == 1 and c.fronts]
+            if not cs: continue
+            c = r.choice(cs); f = r.choice(c.fronts)
+            f2 = Front(f.toml_addr, f.addr); f2.tags = f.tags
+            if not f.tags and r.random() < 0.5: f2.tags = {} if f.tags is None else None
+            c.fronts.insert(r.randrange(len(c.fronts) + 1), f2)
+        elif which == "duplicate-backend":
+            cs = [c for c in d.clusters if c.backs]
+            if not cs: continue
+            c = r.choice(cs); i = r.randrange(len(c.backs)); b = c.backs[i]
+            b2 = Back(b.addr); b2.weight = r.choice([None, 7]); b2.bid = b.bid
+            if b.bid is None:
+                if r.random() < 0.5: b.bid = b2.bid = "same"
+                else: b2.bid = "%s-%d-%s" % (c.id, i, b.addr)      # spells out the default id of the first one
+            c.backs.append(b2)
         elif which == "malformed":
             d.malformed = True
             d.extra_toml = r.choice(['worker_count = "two"', "buffer_size = -1", "activate_listeners = 1", "[[listeners]]\nprotocol = \"http\"",
@@ -770,7 +797,8 @@ VIOLATIONS = ["unknown-listener-protocol", "unknown-cluster-protocol", "missing-
               "hsts-on-http-listener", "hsts-without-enabled", "frontend-on-wrong-listener", "http-frontend-without-hostname",
               "tcp-frontend-with-hostname", "tcp-cluster-mixing-expect-proxy", "hsts-on-http-frontend", "duplicate-cluster-id",
               "automatic-state-save-without-saved-state", "missing-certificate-file", "malformed",
-              "certificate-without-key", "key-without-certificate", "invalid-health-check"]
+              "certificate-without-key", "key-without-certificate", "invalid-health-check",
+              "duplicate-route", "duplicate-tcp-frontend", "duplicate-backend"]
 
 
 def gen_cases(rng, tier):
